@@ -54,6 +54,36 @@ def _only_inside_equal_custom_nodes(target, new):
   return True
 
 
+def _cycle_through_custom_node(root):
+  """The structure contains a reference cycle that passes through a value of the user-registered
+  node type (a new value referring back into the aligned-as-a-whole custom node it sits in)."""
+  onstack, kinds = [], []
+
+  def children(x):
+    if isinstance(x, fdl.Buildable):
+      return list(x.__arguments__.values())
+    if isinstance(x, graphs.Pair):
+      return [x.left, x.right]
+    if isinstance(x, (list, tuple)):
+      return list(x)
+    if isinstance(x, dict):
+      return list(x.values())
+    return []
+
+  def walk(x, depth=0):
+    if graphs.is_atom(x) or depth > 200:
+      return False
+    if any(y is x for y in onstack):
+      i = next(n for n, y in enumerate(onstack) if y is x)
+      return any(isinstance(y, graphs.Pair) for y in onstack[i:])
+    onstack.append(x)
+    try:
+      return any(walk(c, depth + 1) for c in children(x))
+    finally:
+      onstack.pop()
+  return walk(root)
+
+
 def diff_canon(d):
   return [repr(c) for c in d.changes] + ['--'] + [graphs.canon(v) for v in d.new_shared_values]
 
@@ -118,6 +148,7 @@ def execute(case):
     obs['equal_new'] = False
     obs['got'] = f'the patched copy cannot be traversed: {type(e).__name__} {e}'
     obs['want'] = new_before
+    obs['same_values'] = _cycle_through_custom_node(target)
     obs['diff_unchanged'] = obs['new_unchanged'] = True
     obs['shares_with_new'] = 0
     return obs, None
